@@ -10,7 +10,7 @@ from ..fn import World
 from ..index import AnalysisError, dotted
 from ..astutil import text, short, endswith, calls_in, walk_no_nested
 from ..dataflow import DefUse
-from ._h_F import (Res, res_of, scopes, aliases_of, is_none, isinstance_atom, call_arg, absent,
+from ._h_F import (ifn, Res, res_of, scopes, aliases_of, is_none, isinstance_atom, call_arg, absent,
                    canon, strip_wrappers)
 
 EXPLANATION = (
@@ -103,7 +103,7 @@ def r1_single_step(run, w):
   R1 = run.rule("C39-R1", "each renamed value is one lookup renames.get(old[, old]); the mapping "
                 "is never iterated to rewrite values in sequence", floor=3)
   # ---- Choice cells: every result is renames.get(value) (or None)
-  c1 = w.fn("column.ChoiceColumn._rename_cell_choice")
+  c1 = ifn(w, "column.ChoiceColumn._rename_cell_choice")
   ps = c1.fi.params()
   mp, vp = ps[1], ps[2]
   r = res_of(w, c1)
@@ -131,7 +131,7 @@ def r1_single_step(run, w):
   run.ob(R1, c1.qualname, "return renames.get(value)", "a Choice cell maps through one lookup",
          ok and n_lookup >= 1, fi=c1.fi)
   # ---- Choice List cells: every element is renames.get(choice, choice) for choice in value
-  c2 = w.fn("column.ChoiceListColumn._rename_cell_choice")
+  c2 = ifn(w, "column.ChoiceListColumn._rename_cell_choice")
   ps = c2.fi.params()
   mp, vp = ps[1], ps[2]
   r = res_of(w, c2)
@@ -164,7 +164,7 @@ def r1_single_step(run, w):
          "each element of a Choice List maps through one lookup, unmapped elements stay",
          ok and n_elts >= 1, fi=c2.fi)
   # ---- saved filters: every consultation of the mapping is get(v, v) on a value known to be a str
-  ua = w.fn("useractions.UserActions.RenameChoices")
+  ua = ifn(w, "useractions.UserActions.RenameChoices")
   mp = ua.fi.params()[3]
   uses = _mapping_uses(w, ua, mp)
   outer = res_of(w, ua)
@@ -195,7 +195,7 @@ def _calls_named(fn, *suffixes):
 def _ua_parts(w):
   """Role lookup in RenameChoices: the rename_choices call, the update of the column's own table,
   the update of _grist_Filters."""
-  ua = w.fn("useractions.UserActions.RenameChoices")
+  ua = ifn(w, "useractions.UserActions.RenameChoices")
   r = res_of(w, ua)
   ps = ua.fi.params()
   upd = _calls_named(ua, "self.BulkUpdateRecord")
@@ -225,7 +225,7 @@ def r2_only_changed(run, w):
   R2 = run.rule("C39-R2", "only changed cells and filters are written; formula columns are "
                 "skipped", floor=4)
   # ---- ChoiceColumn.rename_choices: a cell is collected only when its renamed value is not None
-  rc = w.fn("column.ChoiceColumn.rename_choices")
+  rc = ifn(w, "column.ChoiceColumn.rename_choices")
   r = res_of(w, rc)
   def renamed_is_none(a, node):
     if not (isinstance(a, ast.Compare) and isinstance(a.ops[0], ast.Is) and
@@ -241,7 +241,7 @@ def r2_only_changed(run, w):
   run.ob(R2, rc.qualname, "if value is not None: row_ids.append(...); values.append(...)",
          "cells whose value is not mapped are not written", ok, fi=rc.fi)
   # ---- ChoiceListColumn: a list without any mapped element is left alone
-  c2 = w.fn("column.ChoiceListColumn._rename_cell_choice")
+  c2 = ifn(w, "column.ChoiceListColumn._rename_cell_choice")
   ps = c2.fi.params()
   r2 = res_of(w, c2)
   names = aliases_of(r2, ps[1])
@@ -387,7 +387,7 @@ def r3_row_domain(run, w):
         run.ob(R3, fi.qualname, "for <index>, ... in enumerate(self._data)",
                "storage indices (which include slot 0 and vacated slots) do not leave the column "
                "as row ids", not escapes, fi=fi, node=n)
-  rc = w.fn("column.ChoiceColumn.rename_choices")
+  rc = ifn(w, "column.ChoiceColumn.rename_choices")
   ps = rc.fi.params()
   r = res_of(w, rc)
   ok = len(ps) >= 3
